@@ -150,7 +150,7 @@ func (d *driver) groundFor(powers []int64, last int64, rc bool, hist string) (*g
 		return nil, err
 	}
 	if rc && last > 0 {
-		w.drop = dropProposalAt(last)
+		w.drop = w.dropProposalAt(last)
 	}
 	if last > 0 {
 		if err := w.run(last); err != nil {
@@ -365,7 +365,7 @@ func (d *driver) chain(ti int, tr mbt.Trace) {
 			return
 		}
 		if rc > 0 {
-			w.drop = dropProposalAt(rc)
+			w.drop = w.dropProposalAt(rc)
 		}
 		err = w.run(heights)
 		if err == nil && h.active() && w.histFired == 0 {
